@@ -57,9 +57,20 @@ def fingerprint(case):
 def load_known():
     try:
         with open(KNOWN_FILE) as f:
-            return json.load(f)
+            data = json.load(f)
     except FileNotFoundError:
-        return {'findings': []}
+        data = {'findings': []}
+    # committed fragments (one finding per file), merged read-only; never written at run time
+    d = os.path.join(VERIF, 'known_findings.d')
+    if os.path.isdir(d):
+        have = {e['id'] for e in data['findings']}
+        for fn in sorted(os.listdir(d)):
+            if fn.endswith('.json'):
+                with open(os.path.join(d, fn)) as f:
+                    e = json.load(f)
+                if e['id'] not in have:
+                    data['findings'].append(e)
+    return data
 
 
 def known_ids(pid):
